@@ -169,7 +169,7 @@ def ifaceData (reg : Registry) (i : IfaceIn) : Registry × IfaceOut :=
 def fileData (f : FileIn) : Registry × List IfaceOut :=
   f.ifaces.foldl (fun (acc : Registry × List IfaceOut) i =>
     let (r', o) := ifaceData acc.1 i
-    (r', acc.2 ++ [o])) (({ dstPkgPath := f.dstPkgPath, inPackage := f.inPackage, imports := [] } : Registry), [])
+    (r', acc.2 ++ [o])) (({ dstPkgPath := f.dstPkgPath, inPackage := f.inPackage, imports := [], dstPkgName := f.pkgName } : Registry), [])
 
 /-! ### string accessors (`template/method.go`, `param_data.go`, `interface.go`) -/
 
